@@ -7,7 +7,7 @@ from mir2smt.exec import OpaqueV, IntV, BoolV, AggV, EnumV, RefV, UNIT, Stop, mk
 from mir2smt import envlib as E
 from mir2smt.builtins import deref
 
-CRATES = ["ckb-constant", "ckb-occupied-capacity-core", "ckb-types"]
+CRATES = ["ckb-constant", "ckb-occupied-capacity-core", "ckb-types", "ckb-chain"]
 U64 = (1 << 64) - 1
 M256 = (1 << 256) - 1
 FIELDS = ["children_hash", "total_difficulty", "start_number", "end_number", "start_epoch", "end_epoch", "start_timestamp", "end_timestamp",
@@ -225,7 +225,15 @@ def m3_verifiable_header(S):
     S.witness(ctx, ob, "reach_valid_after_activation", pre, T.and_(valid, after, T.not_(gen.t)))
 
 
-OBLIGATIONS = [m1_merge, m2_verify, m3_verifiable_header]
+def m4_chain_root_mmr_follows_the_attached_chain(S):
+    """the chain-root MMR built while a branch becomes canonical: opened at the size of the first attached block's parent chain, it receives
+    the digest of *every* attached block (already verified or not) in chain order, the verifier of each block reads that same MMR, and it
+    is committed only when the whole branch was accepted (same executions as C03.m11, judged here for the chain-root clause)"""
+    from obligations import c03
+    c03.m11_reconcile_main_chain(S, ob="C19.m4")
+
+
+OBLIGATIONS = [m1_merge, m2_verify, m3_verifiable_header, m4_chain_root_mmr_follows_the_attached_chain]
 
 ENGINE = "M"
 LEVEL = "other"
